@@ -50,14 +50,20 @@ def run(ctx):
                'size and users are read at different times: available/waiting can be computed from an inconsistent pair' if not held else '', construct='status:load-under-lock')
     aggs = [(blk, s) for blk in st.blocks for s in blk.stmts if s.kind == 'assign' and s.rv.kind == 'agg' and s.rv.j.get('adt') == 'deadpool::Status']
     ctx.ob('R11.1', 'Status is built once', len(aggs) == 1, ctx.where(st), '', construct='status:agg')
+    # differences: `a - b` (must be governed by a >= b) or `a.saturating_sub(b)` (cannot wrap by construction)
+    SAT = 'core::num::saturating_sub'
     subs = []
+    diffs = []      # (bb, lhs operand, rhs operand, kind)
     for blk in st.blocks:
         if blk.cleanup:
             continue
         for s in blk.stmts:
             if s.kind == 'assign' and s.rv.kind == 'bin' and s.rv.binop.startswith('Sub'):
                 subs.append((blk, s))
-    ctx.floor('R11.1', 'subtractions in status()', len(subs), 2)
+                diffs.append((blk.idx, s.rv.ops[0], s.rv.ops[1], 'sub'))
+        if blk.term.kind == 'call' and SAT in blk.term.callee_names() and len(blk.term.args) == 2:
+            diffs.append((blk.idx, blk.term.args[0], blk.term.args[1], 'saturating'))
+    ctx.floor('R11.1', 'differences in status()', len(diffs), 2)
     for blk, s in subs:
         a, b_ = s.rv.ops
         conds = governing_conditions(an, blk.idx)
@@ -82,7 +88,7 @@ def run(ctx):
         ctx.ob('R11.4', 'Status.size is the size counter', fsrc('size') == {'%s.%s' % (r.SLOTS, r.SIZE)}, ctx.where(st, s.line), str(fsrc('size')), construct='status:size')
         ctx.ob('R11.4', 'Status.max_size is the configured limit', fsrc('max_size') == {'%s.%s' % (r.SLOTS, r.MAX)}, ctx.where(st, s.line), str(fsrc('max_size')), construct='status:max')
         for nm in ('available', 'waiting'):
-            srcs = sources(an, f[nm])
+            srcs = sources(an, f[nm], extra_through=(SAT,))
             fields = {x[1] for x in srcs if x[0] == 'field'}
             loads_ = {x[1] for x in srcs if x[0] == 'call'}
             consts = {x[1] for x in srcs if x[0] == 'const'}
@@ -91,15 +97,15 @@ def run(ctx):
             ctx.ob('R11.4', 'Status.%s is derived from size and users only' % nm, ok, ctx.where(st, s.line), 'fields %s calls %s consts %s' % (sorted(fields), sorted(loads_), sorted(consts)),
                    construct='status:' + nm)
         # which difference feeds which field: available = size - users, waiting = users - size
+        def is_size(o):
+            return any(x[0] == 'field' and x[1] == '%s.%s' % (r.SLOTS, r.SIZE) for x in sources(an, o)) and not is_users(o)
+        def is_users(o):
+            return any(x[0] == 'call' and x[1].endswith('::load') for x in sources(an, o))
         for nm, first in (('available', r.SIZE), ('waiting', 'load')):
             srcs = sources(an, f[nm])
-            bins = [x for x in srcs if x[0] == 'bin' and x[1].startswith('Sub')]
-            okd = False
-            for _, _, bb in bins:
-                for st_ in st.blocks[bb].stmts:
-                    if st_.kind == 'assign' and st_.rv.kind == 'bin' and st_.rv.binop.startswith('Sub'):
-                        lhs = an.resolve_operand(st_.rv.ops[0])
-                        okd = okd or (first in lhs if first != 'load' else 'load' in lhs.lower() or 'users' in lhs)
+            feeding = {x[2] for x in srcs if (x[0] == 'bin' and x[1].startswith('Sub')) or (x[0] == 'call' and x[1] == SAT)}
+            mine = [d for d in diffs if d[0] in feeding]
+            okd = bool(mine) and all((is_size(l_) and is_users(r_)) if first != 'load' else (is_users(l_) and is_size(r_)) for _, l_, r_, _ in mine)
             ctx.ob('R11.4', 'Status.%s is the right difference' % nm, okd, ctx.where(st, s.line), '', construct='status:diff:' + nm)
 
     # ---- R11.2 counter discipline -----------------------------------------------------------------
